@@ -14,6 +14,20 @@ def load_rules():
     # importing the modules registers the rules
     from . import rules_tables, rules_grammar, rules_paths, rules_layout, rules_locks, rules_framework, rules_client, rules_history, rules_frag, rules_regex  # noqa
     from . import props
+    # every rule a property lists is named in what the property says it decides: a rule the hand-written text does not mention yet is
+    # appended with the statement of its own docstring ( so that evidence and manifest never claim less than what is run )
+    for pid, spec in props.PROPS.items():
+        if spec.get( '_completed' ):
+            continue
+        extra = []
+        for rid in spec['rules']:
+            if rid not in spec['decides'] and rid in RULES:
+                doc = ' '.join(( RULES[rid].get( 'doc' ) or '' ).split())
+                extra.append( '%s: %s' % ( rid, doc[:600] + ( ' ...' if len( doc ) > 600 else '' )))
+        if extra:
+            spec['decides'] = spec['decides'].rstrip() + '  Also - ' + '  '.join( extra )
+            spec['explanation'] = 'DECIDES (for every input/schedule, from the source alone): ' + spec['decides'] + '  DOES NOT DECIDE: ' + spec['not_decided']
+        spec['_completed'] = True
     return props
 
 
